@@ -71,7 +71,7 @@ func (H) Decode(b []byte) (any, error) {
 
 // ---------------------------------------------------------------- generation
 
-func genNoti(rng *simrt.Rand, u *gen.Universe, target string, tsLo, tsHi int64, small bool, share bool) *gen.Noti {
+func GenNoti(rng *simrt.Rand, u *gen.Universe, target string, tsLo, tsHi int64, small bool, share bool) *gen.Noti {
 	n := &gen.Noti{Target: target, TS: tsLo + int64(rng.Intn(int(tsHi-tsLo+1)))}
 	full := u.Leaves[rng.Intn(len(u.Leaves))]
 	if rng.Chance(0.1) {
@@ -146,6 +146,53 @@ func genNoti(rng *simrt.Rand, u *gen.Universe, target string, tsLo, tsHi int64, 
 	return n
 }
 
+// GenStreams draws one operation list per target of u.
+func GenStreams(rng *simrt.Rand, u *gen.Universe, prop string, lifecycle, small, share bool, maxOps int) [][]Op {
+	var streams [][]Op
+	for _, tg := range u.Targets {
+		var ops []Op
+		removed := false
+		n := 1 + rng.Intn(maxOps)
+		if prop == "C02" && rng.Chance(0.3) {
+			n = 40 + rng.Intn(20)
+		}
+		for i := 0; i < n; i++ {
+			if removed {
+				if rng.Chance(0.5) {
+					ops = append(ops, Op{K: "add"})
+					removed = false
+				} else {
+					ops = append(ops, Op{K: "upd", N: GenNoti(rng, u, tg, 90, 140, small, share)})
+				}
+				continue
+			}
+			if lifecycle {
+				switch rng.Pick(40, 4, 2, 3, 3, 2) {
+				case 1:
+					ops = append(ops, Op{K: "reset"})
+					continue
+				case 2:
+					ops = append(ops, Op{K: "remove"})
+					removed = true
+					continue
+				case 3:
+					ops = append(ops, Op{K: "sync"})
+					continue
+				case 4:
+					ops = append(ops, Op{K: "connect"})
+					continue
+				case 5:
+					ops = append(ops, Op{K: "connerr"})
+					continue
+				}
+			}
+			ops = append(ops, Op{K: "upd", N: GenNoti(rng, u, tg, 90, 140, small, share)})
+		}
+		streams = append(streams, ops)
+	}
+	return streams
+}
+
 func (H) Generate(rng *simrt.Rand, prop, tier string) (any, simrt.Config) {
 	cfg := simrt.RandomConfig(rng)
 	nt := 1 + rng.Pick(5, 4, 2)
@@ -170,47 +217,7 @@ func (H) Generate(rng *simrt.Rand, prop, tier string) (any, simrt.Config) {
 		sc.ClockMode = []string{"frozen", "advancing", "jumpy", "jumpy"}[rng.Intn(4)]
 	}
 	lifecycle := sc.ClockMode == "advancing" && (prop == "C14" || prop == "C15" || prop == "C03" && rng.Chance(0.6) || rng.Chance(0.15))
-	for _, tg := range u.Targets {
-		var ops []Op
-		removed := false
-		n := 4 + rng.Intn(26)
-		if prop == "C02" && rng.Chance(0.3) {
-			n = 40 + rng.Intn(20)
-		}
-		for i := 0; i < n; i++ {
-			if removed {
-				if rng.Chance(0.5) {
-					ops = append(ops, Op{K: "add"})
-					removed = false
-				} else {
-					ops = append(ops, Op{K: "upd", N: genNoti(rng, u, tg, 90, 140, small, share)})
-				}
-				continue
-			}
-			if lifecycle {
-				switch rng.Pick(40, 4, 2, 3, 3, 2) {
-				case 1:
-					ops = append(ops, Op{K: "reset"})
-					continue
-				case 2:
-					ops = append(ops, Op{K: "remove"})
-					removed = true
-					continue
-				case 3:
-					ops = append(ops, Op{K: "sync"})
-					continue
-				case 4:
-					ops = append(ops, Op{K: "connect"})
-					continue
-				case 5:
-					ops = append(ops, Op{K: "connerr"})
-					continue
-				}
-			}
-			ops = append(ops, Op{K: "upd", N: genNoti(rng, u, tg, 90, 140, small, share)})
-		}
-		sc.Streams = append(sc.Streams, ops)
-	}
+	sc.Streams = GenStreams(rng, u, prop, lifecycle, small, share, 4+rng.Intn(26))
 	// clock task
 	if sc.ClockMode != "frozen" || rng.Chance(0.5) {
 		v := sc.Clock0
@@ -525,7 +532,9 @@ func (H) Execute(x *common.Exec, s any) {
 				case "remove":
 					w.c.Remove(target)
 				case "add":
-					w.c.Add(target)
+					if !w.c.HasTarget(target) { // Add on an existing target silently replaces it: never generated
+						w.c.Add(target)
+					}
 				case "sync":
 					w.c.Sync(target)
 				case "connect":
